@@ -48,6 +48,7 @@ type Obl struct {
 	Site   string // return site (ensures) — part of a finding's identity
 	MetricName, MetricKind, MetricPkg string
 	Try    bool // not claimed: attempted in the thorough tier only
+	RefinesKey string // interface-method contract this obligation links the unit to
 	RawQuery string // complete SMT script (lemma files)
 	Exec   *Exec
 	// result
@@ -103,6 +104,8 @@ type Exec struct {
 	nsteps  int
 	pre     *State
 	params  map[string]Value
+	couplingsUsed map[string]bool
+	refineNotes   map[string]bool
 
 	ordinals map[string]int
 	instrOrd map[instrKind]string
@@ -161,7 +164,7 @@ func NewExec(p *Prog, fn *ssa.Function, c *Contract) *Exec {
 		inlined: map[string]bool{}, byContr: map[string]bool{}, intrUsed: map[string]bool{}, unspec: map[string]bool{},
 		specFns: map[string]bool{}, maxPaths: 4000,
 		errDyn: map[string]types.Type{}, freshRegs: map[*Region]bool{}, regionAlias: map[*Region]*Region{}, skippedEnsures: map[string]bool{}, stale: map[string]bool{}, strTags: map[string]string{}, strElems: map[string]VStr{}, objTags: map[*Object]string{}, litOfRegion: map[*Region]string{}, anyElems: map[string]Value{}, zeroObjs: map[*Object]Value{},
-		allRegs: map[string]*Region{}, boundedLoops: map[string]bool{}, noInvLoops: map[string]bool{},
+		allRegs: map[string]*Region{}, boundedLoops: map[string]bool{}, noInvLoops: map[string]bool{}, couplingsUsed: map[string]bool{}, refineNotes: map[string]bool{},
 	}
 	return e
 }
